@@ -133,3 +133,26 @@ for _pid, _t in _MORE.items():
     CHECKS[_pid]["text"] += _t
 for _pid, _t in _MORE4.items():
     CHECKS[_pid]["text"] += _t
+_MORE5 = {
+    "C01": " Construction routes include the constructor given several members of one oneof; payloads of exactly 2**k-1 / 2**k / 2**k+1 bytes (k up to 23, thorough 24) and small multiples are round-tripped; user-defined types merely named like well-known types (protos/wktlike.proto) are covered in every position; repeated scalars now and then hold 60-135 elements.",
+    "C02": " sint kinds are drawn at the values where their zig-zag form changes length; repeated scalars now and then hold 60-135 elements.",
+    "C03": " The files of a grammar schema reach protoc in sorted or reversed order (command line and import statements); a fixed schema of user types named like well-known types is validated structurally.",
+    "C04": " Construction routes: constructor, attribute assignment, in-place filling of lazily created members only (to_dict is then looked at before anything else touches the message), constructor given several members of one oneof.",
+    "C05": " Construction routes as in C04.",
+    "C06": " Every cell of the presence matrix is also emitted through dump(stream) and as a SIZE_DELIMITED frame (prefix = encoded size, frame reads back to the same bytes).",
+    "C07": " Hand-written classes (public field API) whose oneof members are declared interleaved instead of group by group are part of the variants.",
+    "C08": " With nested deletions the writer may emit every singular sub-message twice (an empty occurrence first): what the later occurrence carries beyond the older schema must survive.",
+    "C09": " sint kinds at zig-zag length boundaries and long scalar lists as in C02.",
+    "C10": " Streams are also read through io.BufferedReader with buffers of 8 / 16 / 64 / 4096 bytes (varints, tags and payloads straddle the buffer end).",
+    "C11": " A request object is changed in place (append / map item / field of a nested message) between two sends - inside one request stream and between unary calls; what arrives must be what the object held each time.",
+    "C12": " Channels created by synchronous set-up code before the loop exists (asyncio's current loop is a decoy then) are part of both targets.",
+    "C13": " Every all-at-once schema is compiled under two orders of the files (command line and imports reversed): the plugin sees ancestors before descendants and vice versa.",
+    "C14": " In-place histories against tree models (vf/props/_prog.py): the original is not looked at between the steps, copies are mutated through lazily created members, the original is changed in place between two copies / pickles, observers run on scratch instances, and at the end a fresh instance of every class involved must still be empty.",
+    "C15": " from_dict must give the identical value for every legal spelling with 0-9 fractional digits.",
+    "C16": " Packed lists of up to 600 elements and one map entry per key / value kind are encoded, compared with the reference and decoded back to the value.",
+    "C17": " Every truncation is also presented behind a declared extent (SIZE_DELIMITED frame announcing the whole message, load(stream, size)): a message must not be returned.",
+    "C18": " One package per oneof shape (one / two / three single-member groups, with and without a multi-member group, message / enum / wrapper members, nested) under every option combination.",
+    "C19": " Sibling pairs: every identifier (length <= 4, thorough 5) shares a message with its derived siblings (its own JSON keys, itself without underscores, ...); a round trip restores both fields in every casing in which their keys differ.",
+}
+for _pid, _t in _MORE5.items():
+    CHECKS[_pid]["text"] += _t
